@@ -6,13 +6,17 @@
 set -u
 export GOFLAGS=-mod=mod GOPROXY=off
 ROOT=${1:-/tmp/seed}
-WT=/tmp/sv/wt
-rm -rf /tmp/sv; mkdir -p /tmp/sv
+# the scratch worktree lives outside /tmp so that the suite can run with a private tmpfs on /tmp
+# (the suite binds the fixed path /tmp/rstest.sock; concurrent runs would collide)
+SV=/var/tmp/sv
+WT=$SV/wt
+rm -rf $SV; mkdir -p $SV
+suite() { unshare -rm sh -c "mount -t tmpfs tmpfs /tmp && cd $WT && timeout 600 go test -vet=off -count=1 ./..."; }
 git -C /repo worktree prune
 git -C /repo worktree add --detach $WT HEAD -q || exit 2
 out=$ROOT/verify.tsv
 : > $out
-for d in $ROOT/C*/out/[ab]; do
+for d in $ROOT/C*/out/[abc]; do
   id=$(basename $(dirname $(dirname $d))); x=$(basename $d)
   [ -f $d/patch.diff ] || continue
   cd $WT && git checkout -q -- . && git clean -fdq
@@ -24,18 +28,18 @@ for d in $ROOT/C*/out/[ab]; do
   tests=$(grep -ho "^func Test[A-Za-z0-9_]*" $demo | sed 's/func //' | paste -sd'|')
   # clean tree: demo passes
   cp $demo $pkgdir/
-  if timeout 300 go test -vet=off -count=1 -run "^($tests)\$" ./$pkgdir >/tmp/sv/clean.log 2>&1; then clean=pass; else clean=FAIL; fi
+  if timeout 300 go test -vet=off -count=1 -run "^($tests)\$" ./$pkgdir >$SV/clean.log 2>&1; then clean=pass; else clean=FAIL; fi
   rm -f $pkgdir/$(basename $demo)
-  if ! git apply $d/patch.diff 2>/tmp/sv/apply.log; then echo -e "$id\t$x\tpatch-does-not-apply" >> $out; continue; fi
-  if go build ./... >/tmp/sv/build.log 2>&1; then build=ok; else build=FAIL; fi
-  if timeout 600 go test -vet=off -count=1 ./... >/tmp/sv/suite.log 2>&1; then suite=pass; else
+  if ! git apply $d/patch.diff 2>$SV/apply.log; then echo -e "$id\t$x\tpatch-does-not-apply" >> $out; continue; fi
+  if go build ./... >$SV/build.log 2>&1; then build=ok; else build=FAIL; fi
+  if suite >$SV/suite.log 2>&1; then suite=pass; else
      # one retry: the suite has a flaky statvfs comparison
-     if timeout 600 go test -vet=off -count=1 ./... >/tmp/sv/suite.log 2>&1; then suite=pass; else suite=FAIL; fi
+     if suite >$SV/suite.log 2>&1; then suite=pass; else suite=FAIL; fi
   fi
   cp $demo $pkgdir/
-  if timeout 300 go test -vet=off -count=1 -run "^($tests)\$" ./$pkgdir >/tmp/sv/mut.log 2>&1; then mut=PASS-unexpected; else mut=fails; fi
+  if timeout 300 go test -vet=off -count=1 -run "^($tests)\$" ./$pkgdir >$SV/mut.log 2>&1; then mut=PASS-unexpected; else mut=fails; fi
   rm -f $pkgdir/$(basename $demo)
   echo -e "$id\t$x\tbuild=$build\tsuite=$suite\tdemo_clean=$clean\tdemo_patched=$mut" >> $out
 done
-cd / && git -C /repo worktree remove --force $WT; rm -rf /tmp/sv
+cd / && git -C /repo worktree remove --force $WT; rm -rf $SV
 cat $out
